@@ -120,7 +120,7 @@ func c01OriginHandler(lg *c01AttLog, stage string, fail bool, failAfter int) htt
 
 func TestVerif_C01_attempts(t *testing.T) {
 	s := c01New(t, "C01", "attempts",
-		"real Transport.roundTrip for one request (body none / in-memory with GetBody / one-shot scripted reader, 0..20000 bytes; POST PUT GET) with every combination of stage outcomes: pending Alt-Svc transport absent / answers / fails after 0..all body bytes; cached HTTP/2 connection absent (cache miss) / answers / resets the stream after 0..all body bytes (real ClientConn to an x/net/http2 server over loopback TCP); HTTP/3 not enabled / enabled without a cached connection; scheme https / http; protocol not forced / forced to HTTP/1.1; last stage = the connection loop against an in-process HTTP/1.1 origin; compared with the Lean model Req.Attempts.roundTrip: result, and in order every origin that saw the request (stage, where its body began, answered or not); independent oracle: the call succeeds iff exactly one origin answered and it received exactly the described body, no origin saw the request after another one had failed or answered it; non-trivial = at least one stage in front of the connection loop was active")
+		"real Transport.roundTrip for one request (body none / in-memory with GetBody / one-shot scripted reader, 0..20000 bytes; POST PUT GET) with every combination of stage outcomes: pending Alt-Svc transport absent / answers / fails after 0..all body bytes; cached HTTP/2 connection absent (cache miss) / answers / resets the stream after 0..all body bytes (real ClientConn to an x/net/http2 server over loopback TCP); HTTP/3 not enabled / enabled without a cached connection; scheme https / http; protocol not forced / forced to HTTP/1.1; last stage = the connection loop against an in-process HTTP/1.1 origin; compared with the Lean model Req.Attempts.roundTrip: result, and in order every origin that saw the request (stage, where its body began, answered or not); independent oracle: the call succeeds iff exactly one origin answered and it received exactly the described body, every origin received a prefix of the described body from its first byte, no origin saw the request after another one had answered it or after the Alt-Svc transport had failed; non-trivial = at least one stage in front of the connection loop was active")
 	log.SetOutput(io.Discard)
 	defer log.SetOutput(os.Stderr)
 	r := s.Rand()
